@@ -151,6 +151,8 @@ pub fn c02(cx: &Ctx, rep: &mut Report) {
 // ------------------------------------------------------------------------------------------------ C05
 
 struct Tuple {
+    /// flip only message and context bits (signature and public-key positions are covered by the full tuples)
+    light: bool,
     name: String,
     mode: Mode,
     msg: Vec<u8>,
@@ -181,11 +183,27 @@ pub fn c05(cx: &Ctx, rep: &mut Report) {
                         let mut rng = ScriptRng::ok(&[ki as u8; 32]);
                         if let Ok(Ok(s2)) = sk.sign(mode, &mut rng, msg, ctx) {
                             if s2 != sig {
-                                tuples.push(Tuple { name: format!("key{ki}:{mode:?}:|M|={}:|ctx|={}:signed-by-library", msg.len(), ctx.len()), mode, msg: msg.clone(), ctx: ctx.clone(), pk: kg.pk.clone(), sig: s2 });
+                                tuples.push(Tuple { light: false, name: format!("key{ki}:{mode:?}:|M|={}:|ctx|={}:signed-by-library", msg.len(), ctx.len()), mode, msg: msg.clone(), ctx: ctx.clone(), pk: kg.pk.clone(), sig: s2 });
                             }
                         }
                     }
-                    tuples.push(Tuple { name: format!("key{ki}:{mode:?}:|M|={}:|ctx|={}", msg.len(), ctx.len()), mode, msg: msg.clone(), ctx: ctx.clone(), pk: kg.pk.clone(), sig });
+                    tuples.push(Tuple { light: false, name: format!("key{ki}:{mode:?}:|M|={}:|ctx|={}", msg.len(), ctx.len()), mode, msg: msg.clone(), ctx: ctx.clone(), pk: kg.pk.clone(), sig });
+                }
+            }
+            if ki == 0 && cx.tier == Tier::Quick {
+                // maximum-length context in every mode: message and context positions only
+                for mode in EXTERNAL_MODES {
+                    let (msg, ctx) = (alpha::msg(20, 1), alpha::ctx(255));
+                    let sig = refmodel::sign(&skc, mode, &msg, &ctx, &[7u8; 32]).unwrap();
+                    if let Some(sk) = &subj_sk {
+                        let mut rng = ScriptRng::ok(&[7u8; 32]);
+                        if let Ok(Ok(s2)) = sk.sign(mode, &mut rng, &msg, &ctx) {
+                            if s2 != sig {
+                                tuples.push(Tuple { light: true, name: format!("key0:{mode:?}:|M|=20:|ctx|=255:signed-by-library"), mode, msg: msg.clone(), ctx: ctx.clone(), pk: kg.pk.clone(), sig: s2 });
+                            }
+                        }
+                    }
+                    tuples.push(Tuple { light: true, name: format!("key0:{mode:?}:|M|=20:|ctx|=255"), mode, msg, ctx, pk: kg.pk.clone(), sig });
                 }
             }
             if ki == 0 {
@@ -193,7 +211,7 @@ pub fn c05(cx: &Ctx, rep: &mut Report) {
                 let (cases, _) = crate::checks_a::hard_cases(p, &skc, cx.tier.pick(3000, 50_000));
                 if let Some(hc) = cases.iter().find(|c| c.class == "hint_weight=omega") {
                     let sig = refmodel::sign(&skc, Mode::Pure, &hc.msg, b"", &hc.rnd).unwrap();
-                    tuples.push(Tuple { name: "key0:Pure:hint_weight=omega".into(), mode: Mode::Pure, msg: hc.msg.clone(), ctx: vec![], pk: kg.pk.clone(), sig });
+                    tuples.push(Tuple { light: false, name: "key0:Pure:hint_weight=omega".into(), mode: Mode::Pure, msg: hc.msg.clone(), ctx: vec![], pk: kg.pk.clone(), sig });
                 } else {
                     rep.caps_hit.push(format!("ML-DSA-{}: no signature with hint weight = omega within the search cap", p.id));
                 }
@@ -211,8 +229,8 @@ pub fn c05(cx: &Ctx, rep: &mut Report) {
                 continue;
             }
             evaluated += 1;
-            let nsig = t.sig.len() * 8;
-            let npk = t.pk.len() * 8;
+            let nsig = if t.light { 0 } else { t.sig.len() * 8 };
+            let npk = if t.light { 0 } else { t.pk.len() * 8 };
             let nmsg = t.msg.len() * 8;
             let nctx = t.ctx.len() * 8;
             let total = nsig + npk + nmsg + nctx;
@@ -449,6 +467,10 @@ pub fn c06(cx: &Ctx, rep: &mut Report) {
                     // pre-hash of a message that spells a pure-mode M'
                     let spelled = [&[0u8, c.len() as u8][..], &c[..], &m0[..]].concat();
                     mimic.push(Triple { mode: ph, ctx: vec![], msg: spelled });
+                    // pure-mode triples whose CONTEXT spells the pre-hash OID (argument-order / field-confusion slips)
+                    mimic.push(Triple { mode: Mode::Pure, ctx: refmodel::oid(ph).to_vec(), msg: m0.clone() });
+                    mimic.push(Triple { mode: Mode::Pure, ctx: tail.clone(), msg: vec![] });
+                    mimic.push(Triple { mode: Mode::Pure, ctx: [&c[..], &refmodel::oid(ph)[..]].concat(), msg: refmodel::prehash(ph, &m0) });
                     // other pre-hash functions given the digest of this one as message
                     for ph2 in [Mode::Sha256, Mode::Sha512, Mode::Shake128] {
                         if ph2 != ph {
